@@ -54,7 +54,8 @@ def custom_classes():
     cfilt t   RowFilter: keeps rows whose value in column t is even (reads t; order independent)
     alt       RowFilter: keeps rows at even positions (order and count dependent, declared like Slice)
     atleast n RowFilter: keeps every row if there are at least n of them, else none (count dependent, order independent)
-    rev       Reordering: reverses the rows (order dependent, not count dependent)"""
+    rev       Reordering: reverses the rows (order dependent, not count dependent)
+    droprep t RowFilter: drops a row whose value in column t equals the previous row's (order dependent, not count dependent)"""
     global _CUSTOM
     if _CUSTOM is None:
         import dataclasses
@@ -146,7 +147,29 @@ def custom_classes():
             def is_order_dependent(self):
                 return True
 
-        _CUSTOM = (TotalSort, EvenFilter, Alternate, AtLeast, Reverse)
+        @dataclasses.dataclass(frozen=True)
+        class DropRepeats(RowFilter):
+            tag: ColumnTag
+
+            def __str__(self):
+                return f"droprepeats[{self.tag}]"
+
+            @property
+            def columns_required(self):
+                return frozenset({self.tag})
+
+            @property
+            def is_order_dependent(self):
+                return True
+
+            @property
+            def is_empty_invariant(self):
+                return True
+
+            def applied_max_rows(self, target):
+                return target.max_rows
+
+        _CUSTOM = (TotalSort, EvenFilter, Alternate, AtLeast, Reverse, DropRepeats)
     return _CUSTOM
 
 
@@ -156,7 +179,7 @@ def st_op(draw, cols, universe, fixed_cols, kind=None, custom=False):
     free = [t for t in universe if t not in cols]
     ks = ["sel", "slice", "dedup", "pjoin"]
     if custom and draw(st.integers(0, 5)) == 0:
-        k = draw(st.sampled_from(["alt", "atleast", "rev"] + (["cfilt", "tsort"] if cols else [])))
+        k = draw(st.sampled_from(["alt", "atleast", "rev"] + (["cfilt", "tsort", "droprep"] if cols else [])))
         if k == "atleast":
             return (k, draw(st.integers(1, 4)))
         return (k, draw(st.sampled_from(cols))) if k not in ("alt", "rev") else (k,)
@@ -196,7 +219,7 @@ def st_case(draw):
     cols1 = cols_after(existing, cols0, frozenset(fixed[1]))
     # the new operation is drawn for the columns it will see, but may also name a tag the existing operation hid
     # (the new operation may be user-defined as well: it then runs whatever commute() its base class provides)
-    new = draw(st_op(cols1, universe, fixed[1], custom=existing[0] not in ("tsort", "cfilt", "alt", "atleast", "rev")))
+    new = draw(st_op(cols1, universe, fixed[1], custom=existing[0] not in ("tsort", "cfilt", "alt", "atleast", "rev", "droprep")))
     if new[0] == "pjoin" and fixed[1] and draw(st.integers(0, 2)) == 0:
         # the fixed operand is itself a tree: deduplication, then a projection (which may bring duplicates back)
         order = draw(st.permutations(sorted_tags(fixed[1])))
@@ -237,7 +260,7 @@ def well_formed(spec, cols, fixed_cols):
     if k == "sort":
         need = frozenset().union(*[cols_e(e) for e, _ in spec[1]]) if spec[1] else frozenset()
         return None if need <= cols else f"sort needs {set(need - cols)}"
-    if k in ("cfilt", "tsort"):
+    if k in ("cfilt", "tsort", "droprep"):
         return None if spec[1] in cols else f"custom operation needs {spec[1]}"
     if k == "pjoin":
         need = (cols_p(spec[2]) if spec[2] is not None else frozenset()) - fixed_cols
@@ -259,13 +282,14 @@ def well_formed_columns(spec, fixed_cols):
         return set().union(*[cols_e(e) for e, _ in spec[1]]) if spec[1] else set()
     if k in ("dedup", "slice", "alt", "atleast", "rev"):
         return set()
-    if k in ("cfilt", "tsort"):
+    if k in ("cfilt", "tsort", "droprep"):
         return {spec[1]}
     return None
 
 
 def apply_spec(spec, rows, cols, fixed_rows, fixed_cols):
     k = spec[0]
+    out_prev, prev = False, None
     if k == "ident":
         return rows
     if k == "calc":
@@ -288,6 +312,13 @@ def apply_spec(spec, rows, cols, fixed_rows, fixed_cols):
         return rows[::2]
     if k == "rev":
         return rows[::-1]
+    if k == "droprep":
+        out = []
+        for r in rows:
+            if not out_prev or prev[spec[1]] != r[spec[1]]:
+                out.append(r)
+            out_prev, prev = True, r
+        return out
     if k == "atleast":
         return rows if len(rows) >= spec[1] else []
     if k == "pjoin":
@@ -316,8 +347,10 @@ def to_lib(spec, fixed_rel):
         return Slice(spec[1], spec[2])
     if k == "rev":
         return custom_classes()[4]()
+    if k == "droprep":
+        return custom_classes()[5](spec[1])
     if k in ("tsort", "cfilt", "alt"):
-        TotalSort, EvenFilter, Alternate, AtLeast, Reverse = custom_classes()
+        TotalSort, EvenFilter, Alternate, AtLeast, Reverse, DropRepeats = custom_classes()
         return TotalSort(spec[1]) if k == "tsort" else Alternate() if k == "alt" else EvenFilter(spec[1])
     if k == "atleast":
         return custom_classes()[3](spec[1])
@@ -332,9 +365,11 @@ def from_lib(op, fixed_rel):
 
     if isinstance(op, Identity):
         return ("ident",)
-    TotalSort, EvenFilter, Alternate, AtLeast, Reverse = custom_classes()
+    TotalSort, EvenFilter, Alternate, AtLeast, Reverse, DropRepeats = custom_classes()
     if isinstance(op, Reverse):
         return ("rev",)
+    if isinstance(op, DropRepeats):
+        return ("droprep", op.tag)
     if isinstance(op, AtLeast):
         return ("atleast", op.n)
     if isinstance(op, TotalSort):
@@ -373,6 +408,8 @@ def fmt_spec(s):
         return "custom-filter(rows at even positions)"
     if k == "rev":
         return "custom-reordering(reverse)"
+    if k == "droprep":
+        return f"custom-filter(drop rows repeating the previous {s[1]})"
     if k == "atleast":
         return f"custom-filter(all rows if at least {s[1]})"
     if k == "pjoin":
@@ -555,7 +592,7 @@ def exhaustive(tier, stats, shard, nshards, run):
     ]
     fixed = ("L1", (A, D), ((0, 7), (1, 8), (2, 9), (2, 6)), 1, "data", (4, 4), "plain")
     g = grid()
-    customs = [("tsort", A), ("tsort", C), ("alt",), ("cfilt", A), ("cfilt", C), ("atleast", 3), ("atleast", 5), ("rev",)]
+    customs = [("tsort", A), ("tsort", C), ("alt",), ("cfilt", A), ("cfilt", C), ("atleast", 3), ("atleast", 5), ("rev",), ("droprep", A), ("droprep", B)]
     identity = ("L1", (), ((),), 1, "data", (1, 1), "plain")
     idjoins = [("pjoin", False, ("ge", ("ref", A), ("lit", 1))), ("pjoin", True, ("eq", ("ref", B), ("ref", C))), ("pjoin", False, None)]
     idx = 0
